@@ -7,6 +7,8 @@ mod rng;
 pub use rng::Rng;
 #[path = "../../harness/src/gen_tx.rs"]
 mod gen_tx;
+mod compress;
+mod merkle;
 
 use fuel_tx::{
     Input,
@@ -97,7 +99,24 @@ fn main() {
     let args: Vec<String> = std::env::args().collect();
     let seed: u64 = args.get(1).and_then(|s| s.parse().ok()).unwrap_or(0);
     let cases: u64 = args.get(2).and_then(|s| s.parse().ok()).unwrap_or(20);
+    let mode = args.get(3).map(|s| s.as_str()).unwrap_or("codec");
     let mut ok = 0u64;
+    if mode == "compress" {
+        for i in 0..cases {
+            let mut rng = Rng::derive(seed, 0x434f4d50, i);
+            compress::run(&mut rng, &mut ok);
+        }
+        println!("MIRI-OK mode=compress cases={cases} completed_round_trips={ok}");
+        return;
+    }
+    if mode == "merkle" {
+        for i in 0..cases {
+            let mut rng = Rng::derive(seed, 0x4d45524b, i);
+            merkle::run(&mut rng, &mut ok);
+        }
+        println!("MIRI-OK mode=merkle cases={cases} proofs_verified={ok}");
+        return;
+    }
     for i in 0..cases {
         let mut rng = Rng::derive(seed, 0x4d495249, i);
         let o = gen_tx::FreeOpts { cap: 40, max_inputs: 3, max_outputs: 3, max_witnesses: 2, allow_empty_distinguishing: false };
